@@ -112,6 +112,7 @@ func loadEngine() (*Engine, error) {
 	// type ids for every named type of the repo and go/ast (stable order)
 	e.registerTypes()
 	e.preregisterHeaps()
+	_ = readJSON(filepath.Join(vr, "known_findings.json"), &e.known)
 	return e, nil
 }
 
@@ -151,6 +152,17 @@ func (e *Engine) registerTypes() {
 	for _, n := range names {
 		e.typeIDTerm(byName[n])
 	}
+}
+
+// knownFor: the recorded (status known) finding for an obligation, if any.
+func (e *Engine) knownFor(fn, name string) *KnownFinding {
+	for i := range e.known {
+		k := &e.known[i]
+		if k.Status == "known" && k.Fn == fn && k.Obligation == name {
+			return k
+		}
+	}
+	return nil
 }
 
 // groupHeaps: registered heaps belonging to a named heap group (spec: heapgroup).
